@@ -332,7 +332,8 @@ func runSign(args []string) []string {
 	retries, _ := strconv.Atoi(args[2])
 	var rs []*running
 	var port int
-	for attempt := 0; attempt < 20; attempt++ {
+	started := len(specs) == 0
+	for attempt := 0; attempt < 200; attempt++ {
 		l, err := net.Listen("tcp", "127.0.0.1:0")
 		if err != nil {
 			panic(err)
@@ -350,6 +351,7 @@ func runSign(args []string) []string {
 			rs = append(rs, r)
 		}
 		if ok {
+			started = true
 			break
 		}
 		for _, r := range rs {
@@ -357,6 +359,11 @@ func runSign(args []string) []string {
 				r.srv.Stop()
 			}
 		}
+	}
+	if !started {
+		// not a verdict on the signer: the harness could not set its servers up
+		fmt.Fprintln(os.Stderr, "crypki harness: no free port on the loopback addresses after 200 attempts")
+		os.Exit(3)
 	}
 	defer func() {
 		for _, r := range rs {
